@@ -590,11 +590,15 @@ Definition allocate (o : nopts) (st : lstate) (rq : areq) : option palloc :=
 Inductive op :=
 | OAlloc (rq : areq)            (* Allocate, then Update with the returned allocation (Reserve) *)
 | ORelease (uid : Z)            (* Release (Unreserve / pod deleted) *)
-| OUpdate (p : palloc)          (* Update with an allocation read back from annotations *)
+| OUpdate (p : palloc)          (* pod event: Update with the allocation read back from the pod's annotations *)
 | OAllocR (rq : areq) (host victim : option Z).
   (* Allocate with CPUs given back (r_pref: the remaining CPUs of reservation [host];
      r_preempt: the CPUs of preemption victim [victim]); on success the victim is released and
      the allocation recorded. [host] is bookkeeping of the specification only. *)
+
+(* podEventHandler.updatePod ignores a pod that carries neither a cpuset nor NUMA resources *)
+Definition palloc_empty (p : palloc) : bool :=
+  match p_cpus p, p_numa p with [], [] => true | _, _ => false end.
 
 Definition release_opt (st : lstate) (v : option Z) : lstate :=
   match v with Some uid => release st uid | None => st end.
@@ -606,7 +610,7 @@ Definition step (o : nopts) (st : lstate) (x : op) : lstate * option palloc :=
                  | None => (st, None)
                  end
   | ORelease uid => (release st uid, None)
-  | OUpdate p => (update st p, Some p)
+  | OUpdate p => (if palloc_empty p then st else update st p, Some p)
   | OAllocR rq _ victim =>
     match allocate o st rq with
     | Some p => (update (release_opt st victim) p, Some p)
